@@ -172,6 +172,13 @@ struct PriceData {
 
 /// the repository's price feed: symbolic prices at enumerated non-decreasing timestamps <= now
 fn feed_twap(offsets: Vec<u64>, intervals: Vec<u64>, tail: u64) -> impl Fn() {
+    feed_twap_b(offsets, intervals, tail, vec![])
+}
+
+/// `batches`: sizes of consecutive AppendMultiplePrice batches the submissions are grouped into
+/// (each batch is sent at the time of its last entry; entries carry their own timestamps); empty =
+/// every price is sent by its own AppendPrice
+fn feed_twap_b(offsets: Vec<u64>, intervals: Vec<u64>, tail: u64, batches: Vec<usize>) -> impl Fn() {
     move || {
         let mut cfg = Cfg::base(false, 9);
         cfg.real_feed = true;
@@ -180,11 +187,24 @@ fn feed_twap(offsets: Vec<u64>, intervals: Vec<u64>, tail: u64) -> impl Fn() {
         symrt::set_full(true);
         // (the deployment itself submitted one price at its block time)
         let mut rounds: Vec<(u64, Uint128)> = vec![(w.now(), w.cfg.oracle_price)];
+        let mut pending: Vec<(u64, Uint128)> = vec![];
+        let mut bi = 0usize;
         for (i, off) in offsets.iter().enumerate() {
             w.next_block(*off);
             let p = var(&format!("p{}", i), 0, 10_000 * d, (8 + 3 * i as u128) * d);
             let t = w.now();
-            assert!(w.set_oracle(p, t).ok);
+            if batches.is_empty() {
+                assert!(w.set_oracle(p, t).ok);
+            } else {
+                pending.push((t, p));
+                if pending.len() >= batches[bi % batches.len()] || i + 1 == offsets.len() {
+                    let f = w.feed.clone();
+                    let m = margined_perp::margined_pricefeed::ExecuteMsg::AppendMultiplePrice { key: "USD".into(), prices: pending.iter().map(|x| x.1).collect(), timestamps: pending.iter().map(|x| x.0).collect() };
+                    assert!(w.exec(OWNER, &f, &m, &[]).ok);
+                    pending.clear();
+                    bi += 1;
+                }
+            }
             rounds.push((t, p));
         }
         if tail > 0 {
@@ -253,8 +273,20 @@ pub fn scenarios(seed: u64) -> Vec<Scenario> {
         ("month-long", vec![(3_600, vec![(Input, RemoveFromAmm, 15, true)]), (20 * 86_400, vec![(Output, AddToAmm, 2, true)]), (6 * 86_400, vec![(Input, AddToAmm, 40, true)])], vec![900, 604_800, 6 * 86_400 + 3_600, 7 * 86_400 + 3_600, 20 * 86_400, 26 * 86_400 + 3_601, 27 * 86_400, 365 * 86_400], 3_600),
         ("six-blocks", vec![(g, vec![(Input, AddToAmm, 5, true)]), (g, vec![(Input, AddToAmm, 6, false)]), (g, vec![(Input, RemoveFromAmm, 20, true)]), (g, vec![(Output, AddToAmm, 1, false)]), (g, vec![(Input, AddToAmm, 9, true)]), (g, vec![(Input, RemoveFromAmm, 2, false)])], vec![g / 2, g, 2 * g + 1, 5 * g, 6 * g, 900, 7 * g], g / 2),
     ];
+    let mut scheds = scheds;
+    // a busy market: 150 (thorough: 400) consecutive blocks with a trade each, upward drift with
+    // pull-backs, the last two amounts symbolic; windows inside, across and beyond the history
+    for (name, nb) in [("busy-150-blocks", 150u64), ("busy-400-blocks", 400)] {
+        let mut bl: Vec<Block> = vec![];
+        for i in 0..nb {
+            let symb = i + 2 >= nb;
+            let tr = if i % 3 == 2 { (Input, RemoveFromAmm, 1 + (i % 2) as u128, symb) } else { (Input, AddToAmm, 2 + (i % 4) as u128, symb) };
+            bl.push((10, vec![tr]));
+        }
+        scheds.push((name, bl, vec![5, 60, 600, 1_270, 1_280, 1_290, 10 * nb - 10, 10 * nb, 10 * nb + 10, 10 * nb + 500, 86_400], 7));
+    }
     for (name, blocks, ivs, tail) in scheds {
-        let tier = if name == "six-blocks" { Tier::Thorough } else { Tier::Quick };
+        let tier = if name == "six-blocks" || name == "busy-400-blocks" { Tier::Thorough } else { Tier::Quick };
         v.push(sc("C18", tier, &format!("c18.vamm.{}", name), dv, 400, 120, vamm_twap(blocks.clone(), ivs.clone(), tail)));
         // the same schedule with block times that are not aligned to whole seconds (the query
         // block's sub-second part smaller than that of the last trading block)
@@ -275,7 +307,12 @@ pub fn scenarios(seed: u64) -> Vec<Scenario> {
         ("week-long", vec![100, 8 * 86_400, 3_600], vec![3_600, 86_400, 604_799, 604_800, 604_801, 8 * 86_400 + 43_200, 9 * 86_400, 10 * 86_400, 30 * 86_400], 86_400),
     ];
     for (name, offs, ivs, tail) in feeds {
-        v.push(sc("C18", Tier::Quick, &format!("c18.feed.{}", name), df, 400, 120, feed_twap(offs, ivs, tail)));
+        v.push(sc("C18", Tier::Quick, &format!("c18.feed.{}", name), df, 400, 120, feed_twap(offs.clone(), ivs.clone(), tail)));
+        // the same submissions sent as AppendMultiplePrice batches onto the existing history
+        if name == "four" || name == "two" {
+            v.push(sc("C18", Tier::Quick, &format!("c18.feed.{}.batched-2-1", name), "as above, the prices sent in AppendMultiplePrice batches of 2 and 1 entries appended to the existing rounds", 400, 120, feed_twap_b(offs.clone(), ivs.clone(), tail, vec![2, 1])));
+            v.push(sc("C18", Tier::Quick, &format!("c18.feed.{}.batched-1", name), "as above, single-entry AppendMultiplePrice batches", 400, 120, feed_twap_b(offs, ivs, tail, vec![1])));
+        }
     }
     v
 }
